@@ -627,4 +627,320 @@ def r10_10(ctx: Ctx) -> RuleResult:
     return rr
 
 
-RULES = [r10_1, r10_2, r10_3, r10_4, r10_5, r10_6, r10_7, r10_8, r10_9, r10_10]
+# --------------------------------------------------------------------------- R10.11
+class _Model:
+    """Abstract execution of the printers (`__str__`, `_canonical_string`, helper methods) on small
+    filter-expression trees: sa/peval.py walks the methods' canonical bodies with `self` and the operands
+    bound to model objects; nothing of the library is run."""
+
+    def __init__(self, ctx: Ctx) -> None:
+        self.ctx = ctx
+        self.depth = 0
+        self.cache: Dict[Tuple[int, str, Tuple[object, ...]], object] = {}
+
+    def new(self, cls: str, **kwargs: object) -> "_FNode":
+        obj = _FNode(self, cls, {})
+        init = self.ctx.repo.find_method(self.ctx.repo.require_class(cls), "__init__")
+        if init is None:
+            raise AnalysisError(f"R10.11: {cls}.__init__ not found")
+        params = [a.arg for a in init.node.args.args][1:]
+        if set(kwargs) - set(params):
+            raise AnalysisError(f"R10.11: {cls}.__init__ no longer takes {sorted(set(kwargs) - set(params))}")
+        self.call(obj, "__init__", [], kwargs)
+        return obj
+
+    def call(self, obj: "_FNode", method: str, args: List[object], kwargs: Optional[Dict[str, object]] = None) -> object:
+        from sa.peval import UNKNOWN
+        from sa.peval import Explorer
+
+        fn = self.ctx.repo.find_method(self.ctx.repo.require_class(obj.cls), method)
+        if fn is None:
+            return UNKNOWN
+        key = (obj.uid, fn.qualname, tuple(("$node", a.uid) if isinstance(a, _FNode) else a for a in args))
+        if method != "__init__" and not kwargs and key in self.cache:
+            return self.cache[key]
+        if self.depth > 12:  # noqa: PLR2004
+            raise AnalysisError("R10.11: printer recursion too deep")
+        params = [a.arg for a in fn.node.args.args]
+        static = any(isinstance(d, ast.Name) and d.id == "staticmethod" for d in fn.node.decorator_list)
+        env: Dict[str, object] = {}
+        if not static and params:
+            env[params[0]] = obj
+            params = params[1:]
+        for pname, a in zip(params, args):
+            env[pname] = a
+        for k, v in (kwargs or {}).items():
+            env[k] = v
+        defaults = fn.node.args.defaults
+        for pname, d in zip(params[len(params) - len(defaults):], defaults):
+            if pname not in env:
+                env[pname] = self.ctx.folder.try_eval_in(d, fn.module, fn.cls) if hasattr(self.ctx.folder, "try_eval_in") else UNKNOWN
+        ex: Explorer
+
+        def on_call(e: ast.Call, a: List[object], env2: Dict[str, object]) -> object:
+            if isinstance(e.func, ast.Attribute) and isinstance(e.func.value, (ast.Name, ast.Attribute)):
+                base = ex.value(e.func.value, env2)
+                if isinstance(base, _FNode):
+                    kw = {k.arg: ex.value(k.value, env2) for k in e.keywords if k.arg}
+                    return self.call(base, e.func.attr, list(a), kw)
+            return None
+
+        ex = Explorer(self.ctx.folder, fn, on_call=on_call)
+        self.depth += 1
+        try:
+            outs = ex.run(env)
+        finally:
+            self.depth -= 1
+        if method == "__init__":
+            return None
+        vals = [v for k, _n, v in outs if k == "return"]
+        others = [k for k, _n, _v in outs if k != "return"]
+        res: object = UNKNOWN
+        if vals and not others and all(v == vals[0] for v in vals):
+            res = vals[0]
+        if not kwargs:
+            self.cache[key] = res
+        return res
+
+
+from sa.peval import AbstractObject as _AbstractObject  # noqa: E402
+
+
+class _FNode(_AbstractObject):
+    _count = 0
+
+    def __init__(self, model: _Model, cls: str, fields: Dict[str, object]) -> None:
+        self.model = model
+        self.cls = cls
+        self.fields = fields
+        _FNode._count += 1
+        self.uid = _FNode._count
+
+    def peval_getattr(self, name: str) -> object:
+        from sa.peval import UNKNOWN
+
+        return self.fields.get(name, UNKNOWN)
+
+    def peval_setattr(self, name: str, value: object) -> None:
+        self.fields[name] = value
+
+    def peval_str(self) -> object:
+        if "$text" in self.fields:
+            return self.fields["$text"]
+        return self.model.call(self, "__str__", [])
+
+    def peval_isinstance(self, class_names: List[str]) -> Optional[bool]:
+        return any(self.model.ctx.repo.is_subclass(self.cls, c) for c in class_names)
+
+    def shape(self) -> object:
+        if "$text" in self.fields:
+            return self.fields["$text"]
+        if self.cls == "PrefixExpression":
+            return ("!", self.fields["right"].shape())  # type: ignore[union-attr]
+        return (self.fields["operator"], self.fields["left"].shape(), self.fields["right"].shape())  # type: ignore[union-attr]
+
+
+def _flatten(t: object) -> object:
+    """`&&` / `||` chains are associative: ((a && b) && c) and (a && (b && c)) are one expression."""
+    if isinstance(t, tuple) and len(t) == 3:  # noqa: PLR2004
+        op, left, right = t
+        left, right = _flatten(left), _flatten(right)
+        if op in ("&&", "||"):
+            items: List[object] = []
+            for side in (left, right):
+                if isinstance(side, tuple) and side and side[0] == ("chain", op):
+                    items.extend(side[1:])
+                else:
+                    items.append(side)
+            return (("chain", op), *items)
+        return (op, left, right)
+    if isinstance(t, tuple) and len(t) == 2:  # noqa: PLR2004
+        return (t[0], _flatten(t[1]))
+    return t
+
+
+def _reference_parse(text: str, atoms: List[str], op_prec: Dict[str, int], prefix_prec: int, lowest: int, strict_less: bool) -> object:
+    """A precedence-climbing parser with the shape of `Parser.parse_filter_selector` (the loop stops at an operator
+    whose precedence is below - `strict_less` - the current one) over the folded precedence table."""
+    toks: List[str] = []
+    i = 0
+    cands = sorted(atoms + list(op_prec) + ["(", ")", "!"], key=len, reverse=True)
+    while i < len(text):
+        if text[i] == " ":
+            i += 1
+            continue
+        for c in cands:
+            if text.startswith(c, i):
+                toks.append(c)
+                i += len(c)
+                break
+        else:
+            raise ValueError(f"unreadable text at {text[i:]!r}")
+    pos = 0
+
+    def peek() -> Optional[str]:
+        return toks[pos] if pos < len(toks) else None
+
+    def primary() -> object:
+        nonlocal pos
+        t = peek()
+        if t is None:
+            raise ValueError("unexpected end")
+        pos += 1
+        if t == "!":
+            return ("!", expr(prefix_prec))
+        if t == "(":
+            e = expr(lowest)
+            if peek() != ")":
+                raise ValueError("unbalanced parentheses")
+            pos += 1
+            return e
+        if t in atoms:
+            return t
+        raise ValueError(f"unexpected {t!r}")
+
+    def expr(min_prec: int) -> object:
+        nonlocal pos
+        left = primary()
+        while True:
+            t = peek()
+            if t is None or t == ")" or t not in op_prec:
+                return left
+            p = op_prec[t]
+            if (p < min_prec) if strict_less else (p <= min_prec):
+                return left
+            pos += 1
+            right = expr(p)
+            left = (t, left, right)
+
+    tree = expr(lowest)
+    if pos != len(toks):
+        raise ValueError(f"trailing text {toks[pos:]}")
+    return tree
+
+
+def r10_11(ctx: Ctx) -> RuleResult:
+    """Grouping round trip.  Every filter expression tree of depth <= 3 over one operator of each precedence level,
+    `!` and path leaves is printed by abstract execution of the printers and read back by a reference parser that
+    has the shape of the library's Pratt loop and its folded precedence table; the tree read back must be the tree
+    printed (`&&` / `||` chains compared as chains).  Decides the parenthesisation of *every* nesting at once:
+    logical under comparison, comparison under comparison, `!` under comparison, comparison under `!` ..."""
+    from sa.peval import UNKNOWN
+    from sa.peval import Text
+
+    rr = RuleResult("R10.11", "printed filter expressions group as the tree they were printed from", floor=200)
+    parser = ctx.repo.require_class("Parser")
+    try:
+        ops = ctx.folder.class_attr(parser, "BINARY_OPERATORS")
+        prec = ctx.folder.class_attr(parser, "PRECEDENCES")
+        lowest = ctx.folder.class_attr(parser, "PRECEDENCE_LOWEST")
+        prefix = ctx.folder.class_attr(parser, "PRECEDENCE_PREFIX")
+    except NotConst as err:
+        raise AnalysisError(f"R10.11: parser tables cannot be folded: {err}") from err
+    pfs = ctx.repo.require_func("Parser.parse_filter_selector")
+    cmps = [n for n in ast.walk(pfs.node) if isinstance(n, ast.Compare) and len(n.ops) == 1 and "PRECEDENCES" in ast.unparse(n.left)
+            and isinstance(n.ops[0], (ast.Lt, ast.LtE))]
+    if len(cmps) != 1:
+        raise AnalysisError("R10.11: the precedence test of the Pratt loop in Parser.parse_filter_selector was not found")
+    strict_less = isinstance(cmps[0].ops[0], ast.Lt)
+    # operator spelling -> precedence of the token it lexes to
+    op_prec: Dict[str, int] = {}
+    for spelling in sorted(set(ops.values())):
+        toks = ctx.lexer.classify(f"@ {spelling} @")
+        kinds = [k for _r, k, text in toks if text == spelling]
+        if len(kinds) != 1:
+            raise AnalysisError(f"R10.11: operator `{spelling}` does not lex to one token ({toks})")
+        op_prec[spelling] = prec.get(kinds[0], lowest)
+    # one representative per precedence level, both logical operators
+    reps: List[str] = []
+    for level in sorted(set(op_prec.values())):
+        same = sorted(o for o, p in op_prec.items() if p == level)
+        reps.extend(o for o in same if o in ("&&", "||"))
+        others = [o for o in same if o not in ("&&", "||")]
+        if others:
+            reps.append(others[0])
+    model = _Model(ctx)
+    atoms = ["@['a']", "@['b']", "@['c']", "@['d']"]
+
+    def leaf(i: int) -> _FNode:
+        return _FNode(model, "SelfPath", {"$text": atoms[i % len(atoms)]})
+
+    def trees(depth: int, counter: List[int]) -> List[_FNode]:
+        if depth == 0:
+            counter[0] += 1
+            return [leaf(counter[0])]
+        out: List[_FNode] = list(trees(0, counter))
+        subs = trees(depth - 1, counter)
+        for sub in subs:
+            if sub.cls != "SelfPath" or depth == 1:
+                out.append(model.new("PrefixExpression", operator="!", right=sub))
+        small = trees(0, counter)[0]
+        for op in reps:
+            for sub in subs:
+                if sub.cls == "SelfPath" and depth > 1:
+                    continue
+                out.append(model.new("InfixExpression", left=sub, operator=op, right=leaf(counter[0] + 1)))
+                out.append(model.new("InfixExpression", left=leaf(counter[0] + 2), operator=op, right=sub))
+            if depth == 1:
+                out.append(model.new("InfixExpression", left=small, operator=op, right=leaf(counter[0] + 1)))
+        return out
+
+    all_trees = trees(3, [0])
+    where = ctx.repo.require_func("BooleanExpression._canonical_string")
+    seen: Set[str] = set()
+    undecided = 0
+    for t in all_trees:
+        if t.cls == "SelfPath":
+            continue
+        top = model.new("BooleanExpression", expression=t)
+        text = top.peval_str()
+        if isinstance(text, Text) or text is UNKNOWN or not isinstance(text, str):
+            undecided += 1
+            continue
+        want = _flatten(t.shape())
+        try:
+            got = _flatten(_reference_parse(text, atoms, op_prec, prefix, lowest, strict_less))
+        except ValueError as err:
+            got = f"<{err}>"
+        if got == want:
+            rr.ok(where.loc(), f"`{text}` reads back as printed")
+            continue
+        # one finding per kind of nesting (outer operator / inner operator / side)
+        kind = _nesting_kind(t)
+        if kind in seen:
+            continue
+        seen.add(kind)
+        rr.bad(where, where.node, f"the expression {t.shape()} is printed as `{text}`, which the parser reads as {got}: the text of a "
+               f"compiled query does not recompile to an equivalent query ({kind})", construct=f"grouping lost: {kind}")
+    if undecided > len(all_trees) // 10:
+        raise AnalysisError(f"R10.11: the printed text of {undecided} of {len(all_trees)} trees could not be determined")
+    return rr
+
+
+def _nesting_kind(t: _FNode) -> str:
+    def cat(n: _FNode) -> str:
+        if n.cls == "PrefixExpression":
+            return "!"
+        if n.cls == "InfixExpression":
+            op = n.fields.get("operator")
+            return str(op)
+        return "path"
+
+    def walk(n: _FNode) -> List[str]:
+        out = []
+        if n.cls == "PrefixExpression":
+            r = n.fields["right"]
+            out.append(f"`{cat(r)}` under `!`")  # type: ignore[arg-type]
+            out += walk(r)  # type: ignore[arg-type]
+        elif n.cls == "InfixExpression":
+            for side in ("left", "right"):
+                k = n.fields[side]
+                if k.cls != "SelfPath":  # type: ignore[union-attr]
+                    out.append(f"`{cat(k)}` as {side} operand of `{cat(n)}`")  # type: ignore[arg-type]
+                    out += walk(k)  # type: ignore[arg-type]
+        return out
+
+    return "; ".join(walk(t)) or cat(t)
+
+
+RULES = [r10_1, r10_2, r10_3, r10_4, r10_5, r10_6, r10_7, r10_8, r10_9, r10_10, r10_11]
